@@ -17,7 +17,14 @@ established connection drops, close requested by the service is delivered,
 clock advances exactly to / short of / past the retry; with the
 `callback_restart` knob the application's callbacks on whenConnected and
 stopService Deferreds call startService() (restart when cancelled / once
-stopped), i.e. also while stopService() or connectionLost() is on the stack.
+stopped), i.e. also while stopService() or connectionLost() is on the stack;
+with the `app_raises` knob the application protocol's own connectionLost raises
+in some of the losses (dropped connections and requested closes alike; the
+harness, standing in for the reactor, swallows that exception and the history
+goes on); with the `companion` knob a second live ClientService built from the
+SAME application factory object, with its own endpoint, retry table and
+history model, runs on the same clock and the tape alternates between the two
+services (both models are audited after every step).
 
 Oracle after every step (written from the statement and the public docs):
 open connections + attempts in progress <= 1; every retry timer's delay ==
@@ -63,11 +70,15 @@ RUN_WALL_LIMIT_S = 60   # the machine is shared; a run itself takes about a mill
 COMPONENTS = {"real": ["twisted.application.internet.ClientService", "twisted.application._client_service (automat machine, _Core, proxies)",
                        "twisted.internet.defer.Deferred", "automat TypeMachine"],
               "stub": ["stream client endpoint (attempt outcome chosen by the tape)", "transport (close delivered by the tape)", "clock (SimClock)",
-                       "retryPolicy (fixed table)", "prepareConnection hook (scripted)"]}
+                       "retryPolicy (table drawn per run and per service)", "prepareConnection hook (scripted)",
+                       "application protocol (connectionLost raises when the tape says so)"]}
 RULE = ("run = one ClientService (prepareConnection mode none/sync/deferred/mixed drawn), 8..60 tape-chosen operations: startService, stopService, "
         "whenConnected(None|1|2|3), succeed/fail the pending attempt, fire/fail the pending prepareConnection Deferred, drop the open connection, "
         "deliver a requested close, advance the clock to/short of/past the retry; in `extended` runs the retry policy table is drawn (zero, int/float, "
         "non-monotonic, repeated delays) and, with `callback_restart`, callbacks of whenConnected/stopService Deferreds call startService(); "
+        "with `app_raises` the application protocol's connectionLost raises in 40% of the losses; with `companion` (35% of the extended runs) a second "
+        "live ClientService sharing the application factory object (own endpoint, own drawn retry table, own model, same clock) takes 45% of the "
+        "operations and both models are checked after every step; "
         "non-trivial = at least 2 connection attempts AND (a retry timer fired, an established connection dropped, or stopService found a connection or attempt)")
 ASSUMPTIONS = ["operations are issued from outside Deferred callbacks, except startService() in runs with the `callback_restart` knob (a None-returning input, which automat accepts "
                "while another input is being processed) and, in runs with the disabled `reentrant` knob, stopService()/whenConnected() from a whenConnected callback",
@@ -76,7 +87,12 @@ ASSUMPTIONS = ["operations are issued from outside Deferred callbacks, except st
                "a dropped established connection counts as the first consecutive failure for the retry policy (policy(1)), as documented for retryPolicy's argument",
                "whenConnected Deferreds registered on a service that was never started are not required to fail when stopService is called on it",
                "whenConnected Deferreds registered while a stop is in progress and followed by startService before the stop completes wait for the next connection",
-               "a connection being closed by the prepareConnection hook itself is not counted as open"]
+               "a connection being closed by the prepareConnection hook itself is not counted as open",
+               "an exception raised by the application protocol's own connectionLost is the application's fault and is swallowed by the harness the way a "
+               "reactor logs it; the connection is closed all the same, so every clause applies to that loss as to any other (whether the exception "
+               "reaches the caller of the proxy's connectionLost is not judged)",
+               "two services given the same application factory object are independent: each is judged by its own model only (its own endpoint, policy "
+               "table, waiters and stops); they share the clock, so one service's clock operation may fire the other's retry timer"]
 
 KNOWN = ["C58:event-rejected:_clientDisconnected@Connecting", "C58:event-rejected:_clientDisconnected@Waiting",
          "C58:event-rejected:_clientDisconnected@Stopped", "C58:single-connection:attempt+prepare-failed",
@@ -87,8 +103,18 @@ KNOWN = ["C58:event-rejected:_clientDisconnected@Connecting", "C58:event-rejecte
 DELAYS = [0.5, 1.0, 2.0, 4.0]
 
 
+class AppError(Exception):
+    """Raised by the application protocol's own connectionLost (a fault of the application, not of the service)."""
+
+
 class App(Protocol):
     conn = None
+
+    def connectionLost(self, reason):
+        conn = self.conn
+        if conn is not None and conn.app_raises:
+            conn.app_raised = True
+            raise AppError("application connectionLost failed")
 
 
 class Transport:
@@ -129,6 +155,8 @@ class Conn:
         self.proxy = None
         self.app = None
         self.pd = None
+        self.app_raises = False   # the application protocol's connectionLost will raise
+        self.app_raised = False
 
     def live(self):
         return self.open and not self.hook_closed
@@ -208,6 +236,8 @@ def _run(sim):
     delays = list(DELAYS)
     callback_restart = False
     reentrant = False
+    app_raises = False
+    companion_delays = None
     if extended:
         # retry policy table of this run: any non-negative delay is legal, in particular exactly zero (int or float),
         # tables that are not monotonic, and tables with repeated entries
@@ -220,8 +250,48 @@ def _run(sim):
         # (automat refuses re-entrant inputs that return a value).  The property statement does not cover
         # that, so no verdict is given: the knob is drawn but disabled.
         reentrant = sim.draw_bool(0.3, "reentrant") and not avoid and REENTRANT_ENABLED
-    sim.config = {"prepare_mode": prepare_mode, "nops": nops, "avoid_known": avoid, "close_on_reject": close_on_reject, "reentrant": reentrant,
-                  "delays": delays, "callback_restart": callback_restart}
+        # (families added later draw after the older ones)
+        # the application protocol's own connectionLost raises in some of the losses (the reactor logs that and goes on;
+        # the service must have been told about the loss all the same)
+        app_raises = sim.draw_bool(0.5, "app_raises")
+        # a second, live ClientService built from the SAME application factory object (one factory, several endpoints),
+        # with its own endpoint, retry table and model, on the same clock; the tape alternates between the two
+        if sim.draw_bool(0.35, "companion"):
+            companion_delays = [sim.draw_choice([d, 0, 0.0, 0.25, 3], "delayB%d" % i) for i, d in enumerate([1.5, 0.75, 5.0, 2.5])]
+    cfg = {"prepare_mode": prepare_mode, "nops": nops, "avoid_known": avoid, "close_on_reject": close_on_reject, "reentrant": reentrant,
+           "delays": delays, "callback_restart": callback_restart}
+    if extended:
+        cfg["app_raises"] = app_raises
+        if companion_delays is not None:
+            cfg["companion_delays"] = companion_delays
+    sim.config = cfg
+    factory = Factory.forProtocol(App)
+    services = [_service(sim, cfg, delays, factory, "")]
+    if companion_delays is not None:
+        services.append(_service(sim, cfg, companion_delays, factory, "B"))
+    for _ in range(nops):
+        sim.step(300 * sim.depth)
+        svc = services[0]
+        if len(services) > 1 and sim.draw_bool(0.45, "other_service"):
+            svc = services[1]
+            sim.probe("companion_operation")
+        for x in services:
+            x.m["restarted_in_callback"] = False
+        svc.step([x for x in services if x is not svc])
+        states = [x.audit() for x in services]
+        sim.state(states[0] if len(states) == 1 else tuple(states))
+    sim.nontrivial = any(len(x.attempts) >= 2 and bool(x.m["retry_fired"] or x.m["drops"] or x.m["busy_stops"]) for x in services)
+
+
+class _Service:
+    pass
+
+
+def _service(sim, cfg, delays, factory, tag):
+    """One real ClientService with its own endpoint, retry table and history model."""
+    prepare_mode, avoid, close_on_reject = cfg["prepare_mode"], cfg["avoid_known"], cfg["close_on_reject"]
+    reentrant, callback_restart, app_raises = cfg["reentrant"], cfg["callback_restart"], cfg.get("app_raises", False)
+    event = sim.event if not tag else (lambda *fields: sim.event("service" + tag, *fields))
     clk = sim.clock
     asked = []
 
@@ -246,7 +316,8 @@ def _run(sim):
     def guarded(opname, fn, *a):
         try:
             return fn(*a)
-        except Violation:
+        except (Violation, AppError):
+            # (AppError: the application protocol's own failure, handled - "logged" - by whoever delivered the loss)
             raise
         except NoTransition as e:
             sim.fail("event-rejected", "%s@%s" % (e.symbol, getattr(e.state, "name", e.state)),
@@ -262,7 +333,7 @@ def _run(sim):
         def connect(self, factory):
             a = Attempt(len(attempts))
             a.factory = factory
-            sim.event("connect", a.idx, clk.seconds())
+            event("connect", a.idx, clk.seconds())
             stale_guard("a new connection attempt was started")
             sim.check("attempt-while-stopped", m["running"], "connect", "endpoint.connect() called while the service is stopped")
             aw = m.get("await_timer")
@@ -274,7 +345,7 @@ def _run(sim):
             sim.check("retry-waits", not pend, "connect", lambda: "endpoint.connect() at t=%s while a retry timer is still pending for t=%s" % (clk.seconds(), pend[0].getTime()))
 
             def cancelled(d):
-                sim.event("attempt-cancelled", a.idx)
+                event("attempt-cancelled", a.idx)
                 sim.fault("attempt_cancelled_by_stop")
                 a.state = "cancelled"
             a.d = defer.Deferred(cancelled)
@@ -283,12 +354,12 @@ def _run(sim):
             return a.d
 
     def on_close(conn, how):
-        sim.event("transport-close-requested", conn.idx, how)
+        event("transport-close-requested", conn.idx, how)
         conn.closing = True
 
     def on_sched(dc, delay):
         m["k"] += 1
-        sim.event("retry-timer", delay)
+        event("retry-timer", delay)
         stale_guard("a retry was scheduled")
         want = expected_delay(m["k"])
         sim.check("retry-delay", delay == want, "policy",
@@ -312,7 +383,7 @@ def _run(sim):
     def established(conn):
         conn.established = True
         m["k"] = 0
-        sim.event("established", conn.idx)
+        event("established", conn.idx)
         for w in waiters:
             if not w.results:
                 w.must = "connected"
@@ -333,7 +404,7 @@ def _run(sim):
         kinds = {"sync": [("ok", 4), ("fail", 0 if avoid else 2)], "deferred": [("deferred", 1)],
                  "mixed": [("ok", 2), ("deferred", 3), ("fail", 0 if avoid else 1)]}[prepare_mode]
         kind = sim.draw_weighted(kinds, "prepare")
-        sim.event("prepareConnection", conn.idx, kind)
+        event("prepareConnection", conn.idx, kind)
         if kind == "ok":
             conn.prepare = "ok"
             established(conn)
@@ -354,7 +425,7 @@ def _run(sim):
             conn.app.transport.loseConnection()
         chain_failed(None)
 
-    svc = ClientService(Endpoint(), Factory.forProtocol(App), retryPolicy=policy, clock=RecordingClock(clk, on_sched),
+    svc = ClientService(Endpoint(), factory, retryPolicy=policy, clock=RecordingClock(clk, on_sched),
                         prepareConnection=None if prepare_mode == "none" else hook)
 
     # ---------------------------------------------------------------- observation helpers
@@ -367,7 +438,7 @@ def _run(sim):
     def watch_waiter(w, d):
         def rec(res):
             w.results.append(res)
-            sim.event("whenConnected-fired", w.idx, "F:" + res.type.__name__ if isinstance(res, Failure) else "protocol")
+            event("whenConnected-fired", w.idx, "F:" + res.type.__name__ if isinstance(res, Failure) else "protocol")
             if len(w.results) > 1:
                 return None
             stale_guard("a whenConnected Deferred fired")
@@ -425,7 +496,7 @@ def _run(sim):
     def watch_stop(s, d):
         def rec(res):
             s.results.append(res)
-            sim.event("stopService-fired", s.idx)
+            event("stopService-fired", s.idx)
             stale_guard("a stopService Deferred fired")
             still = [x for x in s.alive if x.live()]
             sim.check("stop-waits-for-close", not still, "+".join(sorted(x.status() for x in still)),
@@ -474,13 +545,13 @@ def _run(sim):
         if not lv:
             m["restart_pending"] = False
         c = current_established()
-        sim.state((m["running"], len(lv), bool(timers), c is not None, sum(1 for w in waiters if not w.results) > 0,
+        return (m["running"], len(lv), bool(timers), c is not None, sum(1 for w in waiters if not w.results) > 0,
                    sum(1 for s in stops if not s.results) > 0, min(m["k"], 4),
-                   tuple(sorted(x.status() for x in conns if x.open))))
+                   tuple(sorted(x.status() for x in conns if x.open)))
 
     # ---------------------------------------------------------------- operations
     def op_start():
-        sim.event("startService", "dup" if m["running"] else "-")
+        event("startService", "dup" if m["running"] else "-")
         if not m["running"] and live_things() and m["ever_started"]:
             m["restart_pending"] = True
             sim.probe("restart_while_disconnecting")
@@ -490,7 +561,7 @@ def _run(sim):
 
     def op_stop():
         lv = live_things()
-        sim.event("stopService", len(lv))
+        event("stopService", len(lv))
         if lv and m["running"]:
             m["busy_stops"] += 1
         if any(isinstance(x, Conn) and x.prepare == "pending" for x in lv):
@@ -512,7 +583,7 @@ def _run(sim):
         limit = sim.draw_choice([None, 1, 2, 3], "failAfterFailures")
         w = Waiter(len(waiters), limit)
         waiters.append(w)
-        sim.event("whenConnected", w.idx, limit)
+        event("whenConnected", w.idx, limit)
         cur = current_established()
         if cur is not None and not cur.closing and m["running"]:
             w.must = "connected"
@@ -525,7 +596,7 @@ def _run(sim):
     def op_attempt(a):
         ok = not sim.draw_bool(0.4, "attempt_fails")
         if ok:
-            sim.event("attempt-succeeds", a.idx)
+            event("attempt-succeeds", a.idx)
             conn = Conn(len(conns))
             conns.append(conn)
             a.state = "connected"
@@ -538,7 +609,7 @@ def _run(sim):
                 established(conn)
             guarded("attempt-callback", a.d.callback, proxy)
         else:
-            sim.event("attempt-fails", a.idx)
+            event("attempt-fails", a.idx)
             sim.fault("attempt_failed")
             a.state = "failed"
             chain_failed(None)
@@ -546,7 +617,7 @@ def _run(sim):
 
     def op_prepare(conn):
         ok = True if avoid else not sim.draw_bool(0.4, "prepare_fails")
-        sim.event("prepare-fires", conn.idx, "ok" if ok else "fail")
+        event("prepare-fires", conn.idx, "ok" if ok else "fail")
         d, conn.pd = conn.pd, None
         if d.called:
             # cancelled by the service (stop while preparing)
@@ -562,7 +633,7 @@ def _run(sim):
             guarded("prepare-errback", d.errback, Failure(RuntimeError("rejected later")))
 
     def op_lost(conn, why):
-        sim.event("connection-lost", conn.idx, why, conn.status())
+        event("connection-lost", conn.idx, why, conn.status())
         if conn.established and why == "drop":
             m["drops"] += 1
             sim.fault("connection_dropped")
@@ -574,19 +645,31 @@ def _run(sim):
         reason = Failure(error.ConnectionDone() if conn.closing else error.ConnectionLost())
         cur = current_established()
         m["stale_loss"] = (not conn.established) and cur is not None and cur is not conn
+        if app_raises and sim.draw_bool(0.4, "app_connectionLost_raises"):
+            conn.app_raises = True
+        if any(o.current_established() is not None for o in m.get("others", ())):
+            sim.probe("loss_beside_other_services_connection")
         m["inside"] = "connectionLost"
         try:
             guarded("connectionLost", conn.proxy.connectionLost, reason)
+        except AppError:
+            # what a reactor does with an exception from a protocol's connectionLost: log it and carry on.  The
+            # connection is gone all the same, and the oracle below treats this loss like every other one.
+            pass
         finally:
             m["stale_loss"] = False
             m["inside"] = None
+        if conn.app_raised:
+            sim.fault("app_connectionLost_raised")
+            if conn.closing:
+                sim.probe("app_raised_on_requested_close")
 
     def op_clock():
         pend = [dc for dc in timers if dc.active()]
         if pend:
             left = pend[0].getTime() - clk.seconds()
             how = sim.draw_choice(["exact", "short", "past"], "how")
-            sim.event("clock", how)
+            event("clock", how)
             before = clk.seconds()
             if how == "exact":
                 guarded("clock", clk.advance, left)
@@ -598,13 +681,12 @@ def _run(sim):
                 m["retry_fired"] += 1
             sim.sim_time += clk.seconds() - before
         else:
-            sim.event("clock", "idle")
+            event("clock", "idle")
             guarded("clock", clk.advance, 0.75)
             sim.sim_time += 0.75
 
-    for _ in range(nops):
-        sim.step(300 * sim.depth)
-        m["restarted_in_callback"] = False
+    def step(others):
+        m["others"] = others
         pend_a = [a for a in attempts if a.live()]
         pend_p = [c for c in conns if c.pd is not None]
         closing = [c for c in conns if c.open and c.closing]
@@ -636,8 +718,10 @@ def _run(sim):
             op_lost(sim.draw_choice(droppable, "which"), "drop")
         else:
             op_stop()
-        audit()
-    sim.nontrivial = len(attempts) >= 2 and bool(m["retry_fired"] or m["drops"] or m["busy_stops"])
+
+    me = _Service()
+    me.m, me.attempts, me.conns, me.step, me.audit, me.current_established = m, attempts, conns, step, audit, current_established
+    return me
 
 
 MUTANTS = [
@@ -654,4 +738,8 @@ MUTANTS = [
     '_client_service.py connectingStop without attempt.cancel(): CAUGHT stop-fires / single-connection',
     "round 4 (drawn policy table, startService from callbacks): ClientService.stopService clears `running` after machine.stop(): CAUGHT makes-progress:idle; "
     "waitForRetry 'if not delay: delay = _defaultPolicy(...)': CAUGHT retry-delay:policy",
+    "round 5 (application connectionLost raises; companion service on the same application factory): _ReconnectingProtocolProxy.connectionLost notifies the "
+    "machine only after the application's connectionLost returned normally (try/finally flattened): CAUGHT makes-progress:idle / stop-fires / waiter-in-time:stopped; "
+    "attemptConnection caches the _DisconnectFactory per application factory in the machine builder's closure (second service's losses reach the first "
+    "service's machine): CAUGHT makes-progress:idle / stop-fires / waiter-in-time:stopped",
 ]
